@@ -13,9 +13,10 @@ mod judge;
 mod long;
 mod model;
 mod ops;
+mod vals;
 
 use mc_core::{self as mc, json, Harness, Job, Plan, Tier, Value};
-use model::{fill, Op, FILLS};
+use model::{fill, Op, FILLS, M};
 use std::cell::RefCell;
 use std::collections::HashMap;
 use std::rc::Rc;
@@ -108,6 +109,37 @@ impl Harness for C20 {
                 jobs.push(Job::new(format!("L2op-{}x{}", r, c), json!({"kind": "lbin", "r": r, "c": c, "n": n, "t": t, "seed": seed})));
             }
         }
+        // Extension (round 7): the two value families of `vals.rs`. (1) off-centre values for the
+        // statistics operations and the estimators that consume them; (2) nearly-equal values.
+        let (vr, vc) = if t { (8, 6) } else { (4, 3) };
+        let mut vshapes: Vec<(usize, usize)> = (1..=vr).flat_map(|r| (1..=vc).map(move |c| (r, c))).collect();
+        vshapes.sort_by_key(|(r, c)| (r * c, *r));
+        for &(r, c) in &vshapes {
+            jobs.push(Job::new(format!("Voff1-{}x{}", r, c), json!({"kind": "voff1", "r": r, "c": c, "t": t, "seed": seed})));
+        }
+        for n in 1..=vmax {
+            jobs.push(Job::new(format!("VoffV-n{}", n), json!({"kind": "voffv", "n": n, "t": t, "seed": seed})));
+        }
+        for &(e, cfgs) in OFFSET_ESTS.iter() {
+            for f in 0..if t { 9 } else { 6 } {
+                jobs.push(Job::new(format!("VoffE-{}-first{}", est::ESTS[e].0, f), json!({"kind": "est", "e": e, "first": f, "part": 0, "parts": 1, "t": t, "seed": seed, "off": OFFSET_EST, "cfgs": cfgs})));
+            }
+        }
+        for &e in NE_ESTS.iter() {
+            // the k-NN classifier rejects k = 1: only its configurations with k in {2, 3}
+            let cfgs: Vec<usize> = (0..est::ESTS[e].1).filter(|c| e != 9 || c % 3 != 0).collect();
+            for f in 0..if t { 9 } else { 6 } {
+                jobs.push(Job::new(format!("VneE-{}-first{}", est::ESTS[e].0, f), json!({"kind": "est", "e": e, "first": f, "part": 0, "parts": 1, "t": t, "seed": seed, "ne": true, "cfgs": cfgs})));
+            }
+        }
+        for &(r, c) in &shapes {
+            jobs.push(Job::new(format!("Vne1-{}x{}", r, c), json!({"kind": "vne1", "r": r, "c": c, "t": t})));
+            jobs.push(Job::new(format!("Vne2-{}x{}", r, c), json!({"kind": "vne2", "r": r, "c": c, "t": t})));
+        }
+        for n in 1..=vmax {
+            jobs.push(Job::new(format!("VneV1-n{}", n), json!({"kind": "vnev1", "n": n, "t": t})));
+            jobs.push(Job::new(format!("VneV2-n{}", n), json!({"kind": "vnev2", "n": n, "t": t})));
+        }
         Plan {
             jobs,
             budget_s: if t { 2400 } else { 40 },
@@ -146,6 +178,20 @@ impl Harness for C20 {
                 for (name, _, _) in est::LONG_ESTS.iter() {
                     f.push((*name, 10_000));
                 }
+                // Extension (round 7): the value families must be in domain, reach the moment
+                // operations at |offset| = 1e8, compare operand pairs that differ by <= eps, and
+                // the estimators must have produced values on all three backends
+                f.extend([
+                    ("offset_statistic_cases_in_domain", 5_000),
+                    ("offset_moment_cases_with_offset_1e8", 1_500),
+                    ("offset_vector_cases_in_domain", 1_000),
+                    ("offset_estimator_cases_with_values_from_all_three_backends", 10_000),
+                    ("nearly_equal_matrix_cases_in_domain", 40_000),
+                    ("nearly_equal_vector_cases_in_domain", 10_000),
+                    ("nearly_equal_cases_with_both_members_of_a_pair", 20_000),
+                    ("nearly_equal_operand_pairs_differing_by_at_most_epsilon", 10_000),
+                    ("nearly_equal_label_cases_with_values", 50_000),
+                ]);
                 f
             },
             bounds: json!({
@@ -158,6 +204,8 @@ impl Harness for C20 {
                 "decompositions": format!("LU, QR, SVD, EVD (general, symmetric on A+A^T), Cholesky (on A^T A + I) and their solvers on every 3x3 matrix over {} x 2 layouts", if t { "{0,1,-1,2,-2}" } else { "{0,1,-1}" }),
                 "long_operands_round2": format!("lengths / long-dimension sizes N in {:?}: every BaseVector method (element updates at every position; take with every single index, the reversal, every second index, a repeat) x 4 value alphabets (position-coded, mixed-sign / all-negative / all-positive / small with ties) x 3 vector sources; two-vector methods with second lengths N, N-1, N+1, 1 x 9 source pairs; one-operand matrix methods on 1xN, Nx1, 2xN, Nx2 (every reshape factorisation, element updates / slices / takes at first, middle, last of the long axis) x 5 alphabets (the 4 + all-negative with magnitudes 401.. ) x 2 layouts; every two-operand method on each of these with every second operand in {{1xN, Nx1, 2xN, Nx2, 1x(N+1), (N+1)x1, 2x(N-1), (N-1)x2, 1x1, 1x2, 2x1, 2x2}} x 4 alphabets x 4 layout combinations", long::lengths(t)),
                 "long_feature_data_round2": format!("N feature columns, N in {:?}: linear-kernel SVR (predictions), linear-kernel SVC (decision values and labels; trainer visiting order = default answer to every draw), k-NN classifier (k in {{1,2}} x linear search / cover tree), and Euclidian / Manhattan / Minkowski(1,2,3) / Hamming distances + linear / RBF / polynomial / sigmoid kernels on every (data row, query row) pair, on EVERY ordered data set of 4 rows drawn with repetition from {} row patterns x 3-4 target patterns x 2 input layouts; queries = the patterns, the zero row, the all-ones row and 3 unit vectors", long::est_lengths(t), long::n_patterns(t)),
+                "off_centre_values_round7": format!("value alphabet 'offset' = offset + code (code = each of the 4 alphabets): offsets {:?} for cov, column_mean, mean / var / std / scale_mut on both axes (scale_mut with means offset + 1, 2, ..), offsets +-1e6 also for sum, max, min, argmax, unique, norm2, norm p in {{1,2,3,+inf,-inf}}, softmax_mut, on every shape 1<=r<={}, 1<=c<={} x 2 layouts x 3 backends; vectors of every length 1..={} x 3 sources: mean/var/std at all 4 offsets, sum, norm2, norms, unique at +-1e6. Reference = the exact statistic (computed on the codes); tolerance relative to the spread s = max - min of the operand: 1e-9 s^2 (cov, var), 1e-9 s (std), 64 eps |offset| (means), 1e-12 s (scale_mut); same verdict rule. Estimators on x = 1e6 + lattice (queries 1e6 + the 3x3 lattice), every data set of the estimator family (standard layout): ridge (Cholesky, SVD) / Lasso (alpha 0.1, 1) / elastic net with normalize, Gaussian NB, PCA x4, Mahalanobis", vals::OFFSETS, vr, vc, vmax),
+                "nearly_equal_values_round7": format!("value alphabet {:?}: unique, max, min, argmax on EVERY matrix over the alphabet with <= {} cells (4 rotations of a pattern containing all four values per row for the larger shapes <= {}x{}) x 2 layouts; == and approximate_eq with errors {:?} on operand pairs (a, b): every pair for <= 2 cells, every a x every subset of entries replaced by their nearly-equal twin for <= {} cells, 4 patterns x (no / one (every position) / all entries twinned) for larger shapes, x 4 layout combinations; the same for vectors of length <= {} (unique, to_vec, approximate_eq; 3 sources each); as class labels (2 assignments of {{0.3, 0.1+0.2, 1}} / {{1, 1+eps, 0.3}} to the classes of 4 label patterns) of the 4 naive Bayes, k-NN classifier x8 (k in {{2,3}}; k = 1 is rejected by the library), decision tree classifier x3 and as targets (3 patterns) of k-NN regressor x12 and tree regressor, on every data set of the estimator family (standard layout); classifiers additionally against the same fit with the classes renamed 0..3 on the same backend", vals::NE, vals::ne_all_cells(t), nmax, nmax, vals::NE_ERRORS, vals::ne_pair_cells(t), vmax),
                 "termination": "per-case deadline 20 s (driver); Lasso / ElasticNet on the two bindings run in a child process with a deadline of 0.25 s CPU time (10 s wall) per fit",
                 "seed": format!("VERIF_SEED {} selects the multiplier applied to the alphabets (8 fixed multipliers, 0 = plain)", seed),
             }),
@@ -267,6 +315,77 @@ impl Harness for C20 {
                 }
             }
             "lest" => long_est_case(job, t, seed),
+            "voff1" => {
+                let (r, c) = (job.u("r"), job.u("c"));
+                let off = mc::pick(&vals::OFFSETS);
+                let f = mc::choose(FILLS.len());
+                let la = mc::choose(2);
+                let ops = vals::stat_ops(off);
+                let op = &ops[mc::choose(ops.len())];
+                let a = vals::offset_fill(f, r, c, off, seed);
+                let st = vals::Stat { off, spread: model::spread(&a.v) };
+                if judge::case_with(op, &a, la, None, Some(&st)) {
+                    mc::count("offset_statistic_cases_in_domain");
+                    if off.abs() > 1e7 {
+                        mc::count("offset_moment_cases_with_offset_1e8");
+                    }
+                }
+            }
+            "voffv" => {
+                let n = job.u("n");
+                let off = mc::pick(&vals::OFFSETS);
+                let f = mc::choose(FILLS.len());
+                let src = mc::choose(3);
+                let ops = vals::vstat_ops(off);
+                let op = &ops[mc::choose(ops.len())];
+                let a = vals::offset_fill(f, 1, n, off, seed);
+                let st = vals::Stat { off, spread: model::spread(&a.v) };
+                if judge::case_with(op, &a, src, None, Some(&st)) {
+                    mc::count("offset_vector_cases_in_domain");
+                    if off.abs() > 1e7 {
+                        mc::count("offset_moment_cases_with_offset_1e8");
+                    }
+                }
+            }
+            "vne1" | "vnev1" => {
+                let vec = job.kind() == "vnev1";
+                let (r, c) = if vec { (1, job.u("n")) } else { (job.u("r"), job.u("c")) };
+                let a = ne_operand(r, c, vals::ne_all_cells(t));
+                let la = mc::choose(if vec { 3 } else { 2 });
+                let ops = if vec { vals::ne_vec_unary_ops() } else { vals::ne_unary_ops() };
+                let op = &ops[mc::choose(ops.len())];
+                if judge::case(op, &a, la, None) {
+                    ne_counts(vec, &a, None);
+                }
+            }
+            "vne2" | "vnev2" => {
+                let vec = job.kind() == "vnev2";
+                let (r, c) = if vec { (1, job.u("n")) } else { (job.u("r"), job.u("c")) };
+                let cells = r * c;
+                let a = ne_operand(r, c, vals::ne_pair_cells(t));
+                let b = if cells <= 2 {
+                    // every pair of operands
+                    vals::ne_all(r, c, mc::choose(1 << (2 * cells)))
+                } else if cells <= vals::ne_pair_cells(t) {
+                    // every subset of the entries replaced by their nearly-equal twins
+                    vals::twinned(&a, mc::choose(1 << cells))
+                } else {
+                    // no entry, one entry (every position), every entry
+                    match mc::choose(cells + 2) {
+                        0 => a.clone(),
+                        k if k <= cells => vals::twinned(&a, 1 << (k - 1)),
+                        _ => M { r, c, v: a.v.iter().map(|x| vals::twin(*x)).collect() },
+                    }
+                };
+                let nl = if vec { 3 } else { 2 };
+                let la = mc::choose(nl);
+                let lb = mc::choose(nl);
+                let ops = if vec { vals::ne_vec_binary_ops() } else { vals::ne_binary_ops() };
+                let op = &ops[mc::choose(ops.len())];
+                if judge::case(op, &a, la, Some((&b, lb))) {
+                    ne_counts(vec, &a, Some(&b));
+                }
+            }
             "chain" => {
                 let acts: Vec<u8> = job.params["acts"].as_array().map(|a| a.iter().map(|x| x.as_u64().unwrap_or(0) as u8).collect()).unwrap_or_default();
                 chain::run_replay(job.u("init"), &acts);
@@ -302,6 +421,35 @@ impl Harness for C20 {
     }
 }
 
+/// Off-centre estimator family: (estimator, configurations) that consume column means / standard
+/// deviations / covariances - ridge, Lasso, elastic net with `normalize`, Gaussian NB, PCA, Mahalanobis.
+const OFFSET_ESTS: [(usize, &[usize]); 6] = [(1, &[2, 3]), (2, &[2, 3]), (3, &[1]), (5, &[0]), (16, &[0, 1, 2, 3]), (20, &[0])];
+const OFFSET_EST: f64 = 1e6;
+/// Nearly-equal labels / targets: 4 naive Bayes, k-NN classifier / regressor, tree classifier / regressor.
+const NE_ESTS: [usize; 8] = [5, 6, 7, 8, 9, 10, 11, 12];
+/// Label patterns of the nearly-equal family (indices into `Y_CLS`: two 2-class, two 3-class).
+const NE_PATTERNS: [usize; 4] = [0, 1, 4, 5];
+
+/// First operand of a nearly-equal case: every matrix over the alphabet up to `all_cells` cells,
+/// 4 rotations of the pattern beyond.
+fn ne_operand(r: usize, c: usize, all_cells: usize) -> M {
+    if r * c <= all_cells {
+        vals::ne_all(r, c, mc::choose(1 << (2 * r * c)))
+    } else {
+        vals::ne_pattern(r, c, mc::choose(4))
+    }
+}
+
+fn ne_counts(vec: bool, a: &M, b: Option<&M>) {
+    mc::count(if vec { "nearly_equal_vector_cases_in_domain" } else { "nearly_equal_matrix_cases_in_domain" });
+    if model::has_near_pair(&[&a.v[..], b.map(|m| &m.v[..]).unwrap_or(&[])].concat()) {
+        mc::count("nearly_equal_cases_with_both_members_of_a_pair");
+    }
+    if b.map(|m| model::differ_by_at_most_eps(a, m)).unwrap_or(false) {
+        mc::count("nearly_equal_operand_pairs_differing_by_at_most_epsilon");
+    }
+}
+
 const LATTICE: [(f64, f64); 9] = [(0.0, 0.0), (1.0, 0.0), (0.0, 1.0), (1.0, 1.0), (2.0, 1.0), (1.0, 2.0), (2.0, 0.0), (0.0, 2.0), (2.0, 2.0)];
 const SIGMA5: [f64; 5] = [0.0, 1.0, -1.0, 2.0, -2.0];
 const Y_REG: [[f64; 5]; 3] = [[1.0, 2.0, 3.0, 5.0, 4.0], [0.0, -1.0, 4.0, 2.0, -2.0], [2.0, 2.0, -3.0, 1.0, 2.0]];
@@ -314,6 +462,8 @@ fn est_case(job: &Job, t: bool, seed: u64) {
     let first = job.u("first");
     let (_, ncfg, target) = est::ESTS[e];
     let scale = [1.0, 2.0, 0.5, 4.0, 0.25, 8.0, 2.0, 0.5][(seed % 8) as usize];
+    let off = job.params["off"].as_f64().unwrap_or(0.0);
+    let ne = job.params["ne"].as_bool().unwrap_or(false);
     let data = if e >= est::FIRST_DECOMPOSITION {
         // every 3x3 matrix over {0,1,-1} (first entry fixed by the job); made symmetric / SPD where the decomposition needs it
         // (thorough: over {0,1,-1,2,-2}, first two entries fixed by the job)
@@ -337,10 +487,17 @@ fn est_case(job: &Job, t: bool, seed: u64) {
             // rotated so that the first explored data set of every job has distinct rows
             rows.push(lat[(mc::choose(lat.len()) + first + i + 1) % lat.len()]);
         }
-        let y: Vec<f64> = match target {
-            0 => Y_REG[mc::choose(Y_REG.len())][..n].to_vec(),
-            1 => Y_CLS[mc::choose(4)][..n].to_vec(),
-            2 => {
+        let y: Vec<f64> = match (target, ne) {
+            // nearly-equal value family: targets / class labels over {0.3, 0.1+0.2, 1, 1+eps}
+            (0, true) => vals::NE_TARGETS[mc::choose(vals::NE_TARGETS.len())][..n].to_vec(),
+            (1 | 2, true) => {
+                let pat = &Y_CLS[mc::pick(&NE_PATTERNS)];
+                let names = &vals::NE_LABELS[mc::choose(vals::NE_LABELS.len())];
+                pat[..n].iter().map(|c| names[*c as usize]).collect()
+            }
+            (0, _) => Y_REG[mc::choose(Y_REG.len())][..n].to_vec(),
+            (1, _) => Y_CLS[mc::choose(4)][..n].to_vec(),
+            (2, _) => {
                 let (part, parts) = (job.u("part"), job.u("parts").max(1));
                 Y_CLS[part + parts * mc::choose(Y_CLS.len() / parts)][..n].to_vec()
             }
@@ -348,11 +505,16 @@ fn est_case(job: &Job, t: bool, seed: u64) {
         };
         // integer-valued (count / category) inputs are not scaled
         let sc = if matches!(e, 6 | 7 | 8 | 18) { 1.0 } else { scale };
-        est::Data { x: model::M::new(n, 2, |i, j| if j == 0 { rows[i].0 * sc } else { rows[i].1 * sc }), y, q: model::M::new(9, 2, |i, j| (if j == 0 { i / 3 } else { i % 3 }) as f64 * sc), label: String::new() }
+        // off-centre value family: x = off + lattice, queries = off + the 3x3 lattice (`off` is 0 otherwise)
+        est::Data { x: model::M::new(n, 2, |i, j| off + if j == 0 { rows[i].0 * sc } else { rows[i].1 * sc }), y, q: model::M::new(9, 2, |i, j| off + (if j == 0 { i / 3 } else { i % 3 }) as f64 * sc), label: String::new() }
     };
     // the quick tier runs the (slow, iterative) logistic regression with one regularisation only
-    let cfg = mc::choose(if !t && e == 4 { 1 } else { ncfg });
-    let lx = mc::choose(2);
+    let cfg = match job.params["cfgs"].as_array() {
+        Some(list) => list[mc::choose(list.len())].as_u64().unwrap_or(0) as usize,
+        None => mc::choose(if !t && e == 4 { 1 } else { ncfg }),
+    };
+    // the estimator jobs of the two value families use the standard layout only (layouts are the old family's matter)
+    let lx = if ne || off != 0.0 { 0 } else { mc::choose(2) };
     est::run_case(&job.name, e, cfg, &data, lx);
 }
 
